@@ -133,6 +133,7 @@ func (w *World) addContractFile(cf *ContractFile) {
 			old.Axioms = append(old.Axioms, cf.Axioms...)
 			old.Immutable = append(old.Immutable, cf.Immutable...)
 			old.Sites = append(old.Sites, cf.Sites...)
+			old.Monitors = append(old.Monitors, cf.Monitors...)
 		} else {
 			w.cfiles[cf.PkgPath] = cf
 		}
